@@ -12,7 +12,7 @@ from mc.result import Result
 
 PROPERTY = 'C09'
 LEVEL = 'exploration'
-CASE_GUARD_S = 3600  # a case is a composite (one block of expressions x all texts ...)
+CASE_GUARD_S = {'quick': 300, 'thorough': 3600}  # a case is a composite (a block of expressions x all texts, ...)
 CHUNK = 40
 RULE = ('strings of 1..3 adjacent fragments (form naked/soft/hard x content from a 17-element family over {a, space, both quote characters, @[S]@, @[, ]@, '
         'an ill-formed reference, #, backslash, non-ASCII, =, :, (, option-like, <<, :>}) x follower {end of line, end of file, a second argument, `)`, list continuation} x '
